@@ -460,6 +460,8 @@ def spec_seq(b, an, bad):
                     if cargs is None or n in set(cargs)]
             if ctor is None:
                 want = ('LIST',) + tuple(kept)
+                if not kept:
+                    want = [want, ('LISTOF', frozenset())]
             else:
                 want = ('CALL', ('VAR', ctor)) + tuple(kept)
             expect_exit(s, True, last, want, bad, 'Seq, all elements matched')
